@@ -62,6 +62,16 @@ Theorem C19_removed_contract_disappears : forall c l, c_line c <= l <= c_last c 
 Proof. exact remove_contract_all_lines. Qed.
 Theorem C19_import_after_docstring : forall h e, doc_end h = Some e -> import_line h [] = e + 1.
 Proof. exact import_after_docstring. Qed.
+(* the planner meets W1 for the mutations of one function: when the decorators of the function occupy disjoint line ranges (a fact of
+   the Python layout), no line is removed twice, whatever the linter reports and whichever types are enabled *)
+Theorem C19_planner_meets_w1 : forall q ty f l, disjoint_ranges (f_contracts f) -> removes l (collect q ty [] f) <= 1.
+Proof. exact planner_meets_w1. Qed.
+Example C19_disjoint_ranges_met : disjoint_ranges (f_contracts pure_fn) /\ disjoint_ranges (f_contracts multi_fn).
+Proof.
+  split; intro l; unfold hits, pure_fn, multi_fn; cbn [f_contracts filter andb];
+    match goal with |- context [in_rangeb ?c ?x] => destruct (in_rangeb c x) end; cbn; auto.
+Qed.
+Print Assumptions C19_planner_meets_w1.
 Print Assumptions C19_has_disabled_keeps_declared.
 Example C19_multiline_decorator :
   transform "'" only_raises no_head [SImport 1 ["deal"]] [multi_fn] ["import deal"; "@deal.raises("; "    KeyError,"; ")"; "def f():"; "    raise ValueError"]
